@@ -212,6 +212,9 @@ def run(prog, chk):
     if nsites == 0:
         raise AnalysisBroken("openFromAggregationResp: no chain is appended to the list that becomes the signature's aggregation chain list")
 
+    from .C19 import level_update_table
+    level_update_table(prog, chk, rule="C07.leveltlv", only_success=True)
+
     # sign request
     fr = prog.fn("KSI_createSignRequest", "signature.c")
     cp, hp, lv, rq = [p["n"] for p in fr.params]
